@@ -1,5 +1,75 @@
-(* C12 property theorems. *)
+(* C12 property theorems. Nothing but statements closed by `exact lemma` and Print Assumptions. *)
 From Coq Require Import ZArith NArith List Bool.
-From OG Require Import C12.Model C12.Proofs.
+From OG Require Import C12.Model C12.Proofs C12.ProofsParse C12.Gen_Tokens C12.Inst.
 Import ListNotations.
 Open Scope N_scope.
+
+(* MAIN: for every precedence table, operator map and keyword list, and either printer variant: an expression in
+   canonical form (what a round trip can produce: parenthesisation consistent with the table, every operator known
+   to ParseExpr, literals in range, regex only where the parser reads one) prints to a token sequence that the
+   spine-insertion parser reads back as exactly the same tree - same operators, grouping, literal types and values,
+   identifiers, casts, regex sources, call names and arities. *)
+Theorem C12_print_parse : forall prec isop kws nr dr e,
+  canon prec isop kws nr dr false e = true -> Model.parse prec isop (print_toks nr dr e) = Some e.
+Proof. exact print_parse. Qed.
+Print Assumptions C12_print_parse.
+
+(* the same for the repository's live tables (Gen_Tokens.v) and the repaired printers *)
+Theorem C12_print_parse_repo : forall e, canon_v true true e = true -> Inst.parse (print_toks_v true true e) = Some e.
+Proof. exact (fun e => print_parse Inst.prec Inst.isop keywords true true e). Qed.
+Print Assumptions C12_print_parse_repo.
+
+(* the insertion algorithm of ParseExpr rebuilds every tree whose parenthesisation agrees with the table *)
+Theorem C12_spine_rebuild : forall prec e, pcanon prec e = true -> build prec (fst (spine e)) (snd (spine e)) = e.
+Proof. exact (fun prec => build_spine prec (fun _ => true)). Qed.
+Print Assumptions C12_spine_rebuild.
+
+(* literals *)
+Theorem C12_int_digits : forall n, digits_val (digits n) = Some n.
+Proof. exact digits_roundtrip. Qed.
+Print Assumptions C12_int_digits.
+
+Theorem C12_duration_roundtrip : forall prec isop z f rest,
+  ((- Z.of_N max_int64 <=? z) && (z <=? Z.of_N max_int64))%Z && (true || (Z.rem z ns_us =? 0)%Z) = true ->
+  parse_unary prec isop (S (S f)) (duration_toks true z ++ rest) = Some (EDur z, rest).
+Proof. exact (fun prec isop => duration_parse prec isop true). Qed.
+Print Assumptions C12_duration_roundtrip.
+
+Theorem C12_number_roundtrip : forall ip fp, frac_ok fp = true ->
+  parse_number (digits ip ++ match fp with [] => [46; 48] | _ => 46 :: frac_text fp end) = Some (ip, fp).
+Proof. exact parse_number_print. Qed.
+Print Assumptions C12_number_roundtrip.
+
+Theorem C12_quote_string_roundtrip : forall s rest, wf_str s = true ->
+  match quote_string s ++ rest with
+  | q :: body => q = 39 /\ unquote 39 body [] = Some (s, rest)
+  | [] => False
+  end.
+Proof. exact quote_string_roundtrip. Qed.
+Print Assumptions C12_quote_string_roundtrip.
+
+Theorem C12_quote_ident_roundtrip : forall kws s rest, wf_str s = true ->
+  if ident_needs_quotes kws s
+  then match Model.quote_ident kws s ++ rest with
+       | q :: body => q = 34 /\ unquote 34 body [] = Some (s, rest)
+       | [] => False
+       end
+  else bare_ok s = true /\ kw_lookup kws (lower s) = None.
+Proof. exact quote_ident_roundtrip. Qed.
+Print Assumptions C12_quote_ident_roundtrip.
+
+(* non-vacuity: canonical expressions exist (64-bit limits, quotes, casts, calls, regexes, nested parentheses) *)
+Definition ex1 : expr :=
+  EBin OOr
+    (EBin OAnd (EBin OGt (EBin ODiv (EVar [97] DUnknown) (ENum false 2 [])) (ENum false 1 [2]))
+               (EBin OEqRegex (EVar [104;111;115;116] DTag) (ERegex [97;47;98])))
+    (EParen (EBin OEq (ECall [102] [EInt (-9223372036854775808); EUnsigned 18446744073709551615; EWild WField; ERegex [120]])
+                      (EBin OMul (EInt (-1)) (EParen (EBin OAdd (EDur 1) (EStr [105;116;39;115;10;92])))))).
+Example C12_ex1_canonical : canon_v true true ex1 = true.
+Proof. vm_compute. reflexivity. Qed.
+Example C12_ex1_roundtrip : Inst.parse (Inst.scan (print_text_v true true ex1)) = Some ex1.
+Proof. vm_compute. reflexivity. Qed.
+Example C12_int_limits :
+  Inst.parse (print_toks_v true true (EBin OSub (EInt (-9223372036854775808)) (EInt 9223372036854775807)))
+  = Some (EBin OSub (EInt (-9223372036854775808)) (EInt 9223372036854775807)).
+Proof. vm_compute. reflexivity. Qed.
